@@ -207,19 +207,23 @@ Proof.
   intros Hneg HD Hexp.
   set (ku := Z.abs (fexp u - fn u)). set (kv := Z.abs (fexp v - fn v)).
   set (kr := Z.abs (fexp r - fn r)).
-  pose proof (fnum_scaled u ku ltac:(lia) ltac:(lia)) as Eu.
-  pose proof (fnum_scaled v kv ltac:(lia) ltac:(lia)) as Ev.
-  pose proof (fnum_scaled r kr ltac:(lia) ltac:(lia)) as Er.
-  rewrite Hneg, sg_xorb in Er.
+  assert (Hku : 0 <= ku) by lia. assert (Hkv : 0 <= kv) by lia. assert (Hkr : 0 <= kr) by lia.
+  assert (Hau : 0 <= ku + (fexp u - fn u)) by lia.
+  assert (Hav : 0 <= kv + (fexp v - fn v)) by lia.
+  assert (Har : 0 <= kr + (fexp r - fn r)) by lia.
   assert (E4 : B ^ (kr + (fexp r - fn r)) * B ^ ku * B ^ kv
                = B ^ D * B ^ (ku + (fexp u - fn u)) * B ^ (kv + (fexp v - fn v)) * B ^ kr).
-  { rewrite Bpow_mul3, Bpow_mul4 by lia. f_equal. lia. }
-  destruct (cross_reduce _ _ _ _ _ _ _ _ _ _ _ _ _ _ _ _ _ _ Eu Ev Er E4) as [R1 R2].
+  { rewrite Bpow_mul3, Bpow_mul4 by assumption. f_equal. lia. }
   pose proof (fden_pos u) as Pu. pose proof (fden_pos v) as Pv. pose proof (fden_pos r) as Pr.
-  pose proof (Bpow_pos ku ltac:(lia)) as Pku. pose proof (Bpow_pos kv ltac:(lia)) as Pkv.
-  pose proof (Bpow_pos kr ltac:(lia)) as Pkr.
-  pose proof (Bpow_pos (ku + (fexp u - fn u)) ltac:(lia)) as Pau.
-  pose proof (Bpow_pos (kv + (fexp v - fn v)) ltac:(lia)) as Pav.
+  pose proof (Bpow_pos ku Hku) as Pku. pose proof (Bpow_pos kv Hkv) as Pkv.
+  pose proof (Bpow_pos kr Hkr) as Pkr.
+  pose proof (Bpow_pos _ Hau) as Pau.
+  pose proof (Bpow_pos _ Hav) as Pav.
+  pose proof (fnum_scaled u ku Hku Hau) as Eu.
+  pose proof (fnum_scaled v kv Hkv Hav) as Ev.
+  pose proof (fnum_scaled r kr Hkr Har) as Er.
+  rewrite Hneg, sg_xorb in Er.
+  destruct (cross_reduce _ _ _ _ _ _ _ _ _ _ _ _ _ _ _ _ _ _ Eu Ev Er E4) as [R1 R2].
   exists (fden r * fden u * fden v * B ^ (ku + (fexp u - fn u)) * B ^ (kv + (fexp v - fn v)) * B ^ kr).
   exists (B ^ ku * B ^ kv * B ^ kr).
   exists (sg (fneg u) * sg (fneg v)).
@@ -268,9 +272,10 @@ Proof.
   unfold mpf_mul.
   destruct (top_limbs (fM u) (fn u) prec) as [um un] eqn:Eu.
   destruct (top_limbs (fM v) (fn v) prec) as [vm vn] eqn:Ev.
-  destruct (top_limbs_spec _ _ _ _ _ ltac:(lia) Hnu1 HuB Eu)
+  assert (Hp1 : 1 <= prec) by lia.
+  destruct (top_limbs_spec _ _ _ _ _ Hp1 Hnu1 HuB Eu)
     as (Hun1 & Hunk & Hunn & [Humlo Humhi] & Hule & Huerr & Huex).
-  destruct (top_limbs_spec _ _ _ _ _ ltac:(lia) Hnv1 HvB Ev)
+  destruct (top_limbs_spec _ _ _ _ _ Hp1 Hnv1 HvB Ev)
     as (Hvn1 & Hvnk & Hvnn & [Hvmlo Hvmhi] & Hvle & Hverr & Hvex).
   destruct (Z.eqb_spec un 0) as [Hc|_]; [lia|].
   destruct (Z.eqb_spec vn 0) as [Hc|_]; [lia|].
@@ -292,7 +297,9 @@ Proof.
   destruct Hadj as [Hadj01 HPB].
   clearbody adj.
   destruct (top_limbs P (un + vn - adj) (prec + 1)) as [pm pn] eqn:Ep.
-  destruct (top_limbs_spec _ _ _ _ _ ltac:(lia) ltac:(lia) HPB Ep)
+  assert (Hp2 : 1 <= prec + 1) by lia.
+  assert (Hrs1 : 1 <= un + vn - adj) by lia.
+  destruct (top_limbs_spec _ _ _ _ _ Hp2 Hrs1 HPB Ep)
     as (Hpn1 & Hpnk & Hpnn & [Hpmlo Hpmhi] & Hple & Hperr & Hpex).
   replace (prec + 1 - 1) with prec in Hperr by lia.
   exists pm, pn, adj.
